@@ -12,6 +12,7 @@ cache from the empty state (`fx` = which recorded defects are repaired), `apiRun
 the specification's ghost (marks, observed snapshot, set of keys changed since their last reconcile).
 -/
 import Karp.Proofs.ClusterStateClosed
+import Karp.Proofs.ClusterStateUsage
 
 namespace Karp.C11
 open Karp.ClusterState Karp.Spec.ClusterAbs
@@ -66,6 +67,14 @@ theorem fact_call_orders :
     newStateFromNodeClaimCalls = ["cleanupNodeClaim", "updateNodePoolResources"] ∧
     populateCalls = ["IsTerminal", "updateForPod", "cleanupOldBindings"] ∧
     volumeUsageDeleteCalls = ["Insert"] := by decide
+
+/-- Whether a pod still counts against its node is decided by the SAME predicate at the two sites that account pods — the Pod
+    path (`UpdatePod`: release on `IsTerminal`, account otherwise) and the Node path (`populateResourceRequests`: skip on
+    `IsTerminal`) — and that predicate is the phase-only `podutils.IsTerminal`, which is what `PodObj.terminal` models: a pod
+    with a deletionTimestamp that is still bound and Running (gracefully terminating) keeps counting on both paths. -/
+theorem fact_pod_release_predicate :
+    updatePodPredicates = ["IsTerminal"] ∧ populatePodPredicates = ["IsTerminal"] ∧
+    updatePodCalls = ["updateNodeUsageFromPodCompletion", "updateNodeUsageFromPod"] := by decide
 
 /-! ## Per-NodePool resource totals (every history, every delivery order, no precondition) -/
 
@@ -184,6 +193,51 @@ theorem C11_aggregates_track_pods (fx : Fixes) (dsOf : String → Bool) (ops : L
     Agg (ops.foldl (applyPodOp fx) SNode.new) (ops.foldl tablePodOp []) ∧ TableOK dsOf (ops.foldl tablePodOp []) ∧
     (fx.volRebuild = true → VolExact (ops.foldl (applyPodOp fx) SNode.new) (ops.foldl tablePodOp [])) :=
   podOps_agg fx dsOf ops SNode.new [] agg_new.1 ⟨Map.noDup_nil, by intro k p h; simp at h⟩ (fun _ => agg_new.2) hds
+
+/-- **C11_usage_tracks_table** — component level (`c11.usage`): after ANY sequence of per-pod-key operations on the usage
+    trackers of a state node (`Add` for a key, `DeletePod` of a key, deep copies; keys re-added with other content, deleted
+    while untracked, in any order), what `HostPortUsage` reserves and `VolumeUsage` records per key is exactly the
+    from-scratch reading `usageOf k ops` (the key's LAST add unless a delete came after it), the node-wide volume set
+    contains every volume of those keys, and — with `VolumeUsage.Add` forgetting the key's previous volumes (`fx.volRebuild`,
+    which `Fixes.current` reads off the source) — nothing else: no volume of a deleted pod, or of another pod's record, stays
+    accounted. -/
+theorem C11_usage_tracks_table (fx : Fixes) (dsOf : String → Bool) (ops : List UsageOp)
+    (hds : ∀ p, UsageOp.add p ∈ ops → dsOf p.name = p.ds) :
+    let s := ops.foldl (usageStep fx) SNode.new
+    (∀ k, Map.get s.ports k = (usageOf k ops).map (·.ports)) ∧
+    (∀ k, Map.get s.volPods k = (usageOf k ops).map (·.vols)) ∧
+    (∀ v k p, usageOf k ops = some p → v ∈ p.vols → v ∈ s.volumes) ∧
+    (fx.volRebuild = true → ∀ v, v ∈ s.volumes → ∃ k p, usageOf k ops = some p ∧ v ∈ p.vols) := by
+  intro s
+  have hget : ∀ k, Map.get ((ops.filterMap podOpOf).foldl tablePodOp []) k = usageOf k ops :=
+    fun k => usage_table_get k ops [] none rfl
+  have hds' : ∀ p, PodOp.upd p ∈ ops.filterMap podOpOf → dsOf p.name = p.ds := by
+    intro p hp
+    rw [List.mem_filterMap] at hp
+    obtain ⟨o, ho, hop⟩ := hp
+    cases o with
+    | add q => simp [podOpOf] at hop; subst hop; exact hds _ ho
+    | del k => simp [podOpOf] at hop
+    | copy => simp [podOpOf] at hop
+  obtain ⟨hagg, _, hex⟩ := podOps_agg fx dsOf (ops.filterMap podOpOf) SNode.new [] agg_new.1
+    ⟨Map.noDup_nil, by intro k p h; simp at h⟩ (fun _ => agg_new.2) hds'
+  have hs : s = (ops.filterMap podOpOf).foldl (applyPodOp fx) SNode.new := usage_fold_eq fx ops SNode.new
+  rw [← hs] at hagg hex
+  refine ⟨fun k => by rw [hagg.ports k, hget k], fun k => by rw [hagg.vols k, hget k], ?_, ?_⟩
+  · intro v k p hk hv
+    exact hagg.volSup v k p (by rw [hget k]; exact hk) hv
+  · intro hb v hv
+    obtain ⟨k, p, hk, hp⟩ := hex hb v hv
+    exact ⟨k, p, by rw [← hget k]; exact hk, hp⟩
+
+/-- non-vacuity: three pods with one volume of the same driver each, one is deleted, one re-added with another volume -/
+example :
+    usageVolumes [.add { name := "x1", node := "", terminal := false, req := {}, lim := {}, ds := false, cost := 0, ports := [], vols := [("csi-1", "a")], ver := 0 },
+                  .add { name := "x2", node := "", terminal := false, req := {}, lim := {}, ds := false, cost := 0, ports := [], vols := [("csi-1", "b")], ver := 0 },
+                  .add { name := "x3", node := "", terminal := false, req := {}, lim := {}, ds := false, cost := 0, ports := [], vols := [("csi-1", "c")], ver := 0 },
+                  .del "x3", .copy,
+                  .add { name := "x1", node := "", terminal := false, req := {}, lim := {}, ds := false, cost := 0, ports := [], vols := [("csi-1", "d")], ver := 0 }]
+      = [("csi-1", "d"), ("csi-1", "b")] := by decide
 
 /-- **C11_aggregate_sums** — hence `PodRequests()`, `PodLimits()`, `DaemonSetRequests()`, `DaemonSetLimits()` and
     `DisruptionCost() - 1` are the sums over that table (requests of all its pods; requests of its DaemonSet pods; positive
